@@ -23,7 +23,7 @@ M = [
  ("lex-swap-plus-minus", ["C05"], "internal/lex/lex.go", "\tTPlus\n\tTMinus\n", "\tTMinus\n\tTPlus\n"),
  ("lex-right-assoc", ["C05"], "internal/lex/lex.go", "\t\treturn false\n\t}\n\n\t// lower numbers mean higher precedence", "\t\treturn current.Typ == TOr\n\t}\n\n\t// lower numbers mean higher precedence"),
  ("lex-errorf-keeps-input", ["C16"], "internal/lex/lex.go", "\tl.input = l.input[:0]\n", ""),
- ("lex-backup-one-byte", ["C16", "C01"], "internal/lex/lex.go", "\t\t_, width := utf8.DecodeLastRuneInString(l.input[:l.pos])\n\t\tl.pos -= width", "\t\tl.pos -= 1"),
+ ("lex-backup-one-byte", ["C16"], "internal/lex/lex.go", "\t\t_, width := utf8.DecodeLastRuneInString(l.input[:l.pos])\n\t\tl.pos -= width", "\t\tl.pos -= 1"),
  ("parse-implicit-and-single-reduce", ["C07"], "parse.go", "\t\t\t\t\t\tfor !p.shouldShift(implAnd) {", "\t\t\t\t\t\tfor false && !p.shouldShift(implAnd) {"),
  ("parse-implicit-or", ["C07"], "parse.go", 'implAnd := lex.Token{Typ: lex.TAnd, Val: "AND"}', 'implAnd := lex.Token{Typ: lex.TOr, Val: "OR"}'),
  ("parse-return-partial-on-invalid", ["C10"], "parse.go", "\terr = expr.Validate(ex)\n\tif err != nil {\n\t\treturn e, err\n\t}", "\terr = expr.Validate(ex)\n\tif err != nil {\n\t\treturn ex, err\n\t}"),
